@@ -32,6 +32,10 @@ def ev(e, env, unsigned=True):
         if t in SIZEOF:
             return SIZEOF[t]
         raise NoEval('sizeof %s' % t)
+    if k == 'call' and '__call__' in env:
+        return env['__call__'](e, env)
+    if k == 'global' and '__global__' in env:
+        return env['__global__'](e)
     if k == 'un':
         if e[1] == '-':
             return -ev(e[2], env, unsigned)
@@ -52,10 +56,15 @@ def ev(e, env, unsigned=True):
         if op == '/':
             if b == 0:
                 raise NoEval('div0')
+            if not unsigned and (a < 0) != (b < 0):
+                return -(abs(a) // abs(b))        # C division truncates toward zero
             return a // b
         if op == '%':
             if b == 0:
                 raise NoEval('mod0')
+            if not unsigned and (a < 0 or b < 0):
+                q = -(abs(a) // abs(b)) if (a < 0) != (b < 0) else abs(a) // abs(b)
+                return a - q * b
             return a % b
         if unsigned:
             a %= M64
